@@ -10,7 +10,7 @@
    precondition ([builtin_ok]: WireServer / HostGAPlugin are root-only whatever the rules and the
    mode say -- that is property C03, and such a refusal is also recorded once, see
    C11_one_record_per_request). *)
-From GPA Require Import Summary SummaryProofs ServerProofs.
+From GPA Require Import Summary SummaryProofs SummaryMerge SummaryMergeProofs ServerProofs.
 From Coq Require Import Permutation.
 
 (* enforce mode: 403 to the client, exactly one failed-summary record, nothing written upstream *)
@@ -232,6 +232,47 @@ Theorem C11_repaired_key_separates_the_witness :
   length (adds key_string [f8_a; f8_b]) = 2%nat.
 Proof. vm_compute. repeat split. Qed.
 Print Assumptions C11_repaired_key_separates_the_witness.
+
+(* ---------------------------------------------------------------------------------------------- *)
+(* Clients, the mailbox, and what one-message-at-a-time buys (Model/SummaryMerge.v)                  *)
+(* ---------------------------------------------------------------------------------------------- *)
+(* Clients c1..cn each issue a list of messages; the actor handles ONE message at a time from its mailbox.  For EVERY
+   interleaving of the clients' lists (any number of clients, any keys -- equal or different --, reads and clears at
+   any position) the count under every key is the number of add_one messages for it since the last clear. *)
+Theorem C11_actor_counts_every_interleaving :
+  forall (key : summary -> bytes) (merged : list msg) (lists : list (list msg)),
+  is_merge merged lists ->
+  forall k, count_of (failed (arun key agent0 merged)) k = count_spec key merged k.
+Proof. exact actor_counts_every_interleaving. Qed.
+Print Assumptions C11_actor_counts_every_interleaving.
+
+(* conservation: when no client sends a clear, the result does not depend on the interleaving at all -- the count
+   under k is the sum over the clients of the adds each of them made for k (the burst leg of the check) *)
+Theorem C11_actor_conserves_every_interleaving :
+  forall (key : summary -> bytes) (merged : list msg) (lists : list (list msg)),
+  is_merge merged lists -> forallb no_clear lists = true ->
+  forall k, count_of (failed (arun key agent0 merged)) k = N.of_nat (clients_total key k lists).
+Proof. exact actor_conserves_every_interleaving. Qed.
+Print Assumptions C11_actor_conserves_every_interleaving.
+
+(* DOCUMENTED LEMMA (seeded change s1, not the code): with add_one split into "look the key up under a read lock" and
+   "insert or increment under a write lock", two first denials of one never-seen key interleaved read, read, write,
+   write lose an occurrence -- the map shows 1 where the actor, fed the same two adds in either order, shows 2 *)
+Theorem C11_read_then_write_refuted :
+  exists (s : summary) (l : list rwop),
+    l = [RwRead 1 s; RwRead 2 s; RwWrite 1 s; RwWrite 2 s] /\
+    count_of (rw_map (rw_run key_string l)) (key_string s) = 1 /\
+    count_of (failed (arun key_string agent0 [AddFailed s; AddFailed s])) (key_string s) = 2.
+Proof.
+  exists f8_a. eexists. split; [reflexivity|]. split; vm_compute; reflexivity.
+Qed.
+Print Assumptions C11_read_then_write_refuted.
+
+(* sequentially (read, write, read, write) the variant counts correctly: the loss needs the interleaving *)
+Theorem C11_read_then_write_sequential_ok :
+  count_of (rw_map (rw_run key_string [RwRead 1 f8_a; RwWrite 1 f8_a; RwRead 2 f8_a; RwWrite 2 f8_a])) (key_string f8_a) = 2.
+Proof. vm_compute. reflexivity. Qed.
+Print Assumptions C11_read_then_write_sequential_ok.
 
 (* ---------------------------------------------------------------------------------------------- *)
 (* Non-vacuity                                                                                      *)
